@@ -324,6 +324,11 @@ func GenHeader(r *gen.R, o GenOpts) *Header {
 	full := o.Plain || r.Chance(0.3)
 	if full || r.Bool() {
 		h.BBox = &[4]int64{r.Int64Range(-180e9, 0), r.Int64Range(0, 180e9), r.Int64Range(0, 90e9), r.Int64Range(-90e9, 0)}
+		if r.Bool() {
+			// the four corners are independent numbers: a box inside one hemisphere, a box
+			// crossing the antimeridian (left > right), bottom above top; reported as written
+			h.BBox = &[4]int64{r.Int64Range(-180e9, 180e9), r.Int64Range(-180e9, 180e9), r.Int64Range(-90e9, 90e9), r.Int64Range(-90e9, 90e9)}
+		}
 	}
 	if full || r.Bool() {
 		h.Required = []string{"OsmSchema-V0.6", "DenseNodes"}
